@@ -496,8 +496,8 @@ spif_socket_send(spif_socket_t self, spif_str_t data)
                     for (left = len, s = SPIF_CHARPTR(SPIF_STR_STR(data)); left > 0; s += 1024, left -= 1024) {
                         tmp_buf = spif_str_new_from_buff(s, 1024);
                         b = spif_socket_send(self, tmp_buf);
+                        spif_str_del(tmp_buf);
                         if (b == FALSE) {
-                            spif_str_del(tmp_buf);
                             return b;
                         }
                     }
